@@ -121,6 +121,8 @@ func init() {
 				r.Square(x)
 			case "invert":
 				r.Invert(x)
+			case "opp":
+				r.VerifOpp(x)
 			case "set":
 				r.Set(x)
 			case "select":
@@ -135,6 +137,18 @@ func init() {
 			raw := r.VerifRaw()
 			ev["raw"] = rawBE(&raw)
 		}
+	})
+	// fiat.nonzero {limbs: 4 x 4 half-words...}: the generated nonzero tests on raw limbs (given as 32 bytes, big endian)
+	register("fiat.nonzero", func(ctx *Ctx, c Cmd, ev Ev) {
+		v := c.bytes("v")
+		var raw [4]uint64
+		for i := 0; i < 4; i++ {
+			for j := 0; j < 8; j++ {
+				raw[3-i] = raw[3-i]<<8 | uint64(v[8*i+j])
+			}
+		}
+		ev["p_nz"] = fiat.VerifNonzero(raw) != 0
+		ev["n_nz"] = fiat.VerifScalarNonzero(raw) != 0
 	})
 	register("fiat.pred", func(ctx *Ctx, c Cmd, ev Ev) {
 		a, b := c.bytes("a"), c.bytes("b")
@@ -324,7 +338,16 @@ func init() {
 			k = []byte{}
 		}
 		ev["out"], ev["err"] = B(nil), "unset"
-		r, err := internal.ScalarMult(p, k)
+		var r *internal.SM2Point
+		var err error
+		switch c.str("alg") { // the library keeps three variable-point multiplications
+		case "daa":
+			r, err = internal.VerifDoubleAndAdd(p, k)
+		case "ladder":
+			r, err = internal.VerifLadder(p, k)
+		default:
+			r, err = internal.ScalarMult(p, k)
+		}
 		ev["err"] = errStr(err)
 		if err == nil {
 			ev["out"] = B(r.Bytes())
